@@ -1,8 +1,8 @@
 (** Executable model of the composition validation of finam
-    (src/finam/schedule.py: Composition.connect 161-211, _collect_adapters 317-323,
-     _validate_composition 324-337, metadata 430-524, _collect_adapters_input/_output 527-542,
-     _check_missing_components 559-577, _collect_inputs_outputs 580-600, _check_branching 603-620,
-     _check_input_connected 623-634, _check_dead_links 637-648).
+    (src/finam/schedule.py: Composition.connect 159-213, _collect_adapters 321-326,
+     _validate_composition 328-341, metadata 434-528, _collect_adapters_input/_output 531-546,
+     _check_missing_components 562-580, _collect_inputs_outputs 583-604, _check_branching 607-624,
+     _check_input_connected 627-638, _check_dead_links 641-652; line numbers of the tree at a09b94c).
 
     The object graph built with [>>] (every input / adapter has at most one source, no cycles) is a
     forest: a root is an output (or nothing, for an adapter chain that was never attached to an
@@ -107,7 +107,7 @@ Inductive errkind : Type :=
 | KMissIn        (* "A component was coupled, but not added ... Affected inputs" *)
 | KMissOut.      (* "... Affected outputs" *)
 
-(** [_check_input_connected] (623-634): the walk up raises when it meets [source is None]
+(** [_check_input_connected] (627-638): the walk up raises when it meets [source is None]
     (the input itself or a source-less adapter); at the output it compares the static flags. *)
 Definition check_input_connected (f : list rtree) (c p : nat) : option errkind :=
   match find_input f c p with
@@ -122,7 +122,7 @@ Definition path_flags (pa : path) : list (bool * bool) :=
   ++ map (fun n => (a_push (fst n), a_pull (fst n))) (p_adas pa)
   ++ [(i_push (p_leaf pa), i_pull (p_leaf pa))].
 
-(** the index loop of [_check_dead_links] (643-648); [first] = [first_index >= 0] *)
+(** the index loop of [_check_dead_links] (647-652); [first] = [first_index >= 0] *)
 Fixpoint dead_loop (first : bool) (l : list (bool * bool)) : bool :=
   match l with
   | [] => false
@@ -135,7 +135,7 @@ Definition check_dead_links (f : list rtree) (c p : nat) : option errkind :=
   | Some pa => if dead_loop false (path_flags pa) then Some KDead else None
   end.
 
-(** [_check_branching] (603-620): a stack of (item, inherited no_branch flag); an item is
+(** [_check_branching] (607-624): a stack of (item, inherited no_branch flag); an item is
     represented by (inherited flag, isinstance(item, NoBranchAdapter), item.targets).
     The head of the list is the top of the stack ([targets.pop()] takes the last appended one). *)
 Definition witem : Type := bool * bool * list tree.
@@ -168,7 +168,7 @@ Definition in_keys (t : topo) : list (nat * nat) :=
 Definition out_keys (t : topo) : list (nat * nat) :=
   flat_map (fun c => map (fun p => (c, p)) (seq 0 (n_out t c))) (seq 0 (n_comps t)).
 
-(** [_collect_inputs_outputs] (580-600): the root of every input of the composition, the inputs
+(** [_collect_inputs_outputs] (583-604): the root of every input of the composition, the inputs
     reachable from every output of the composition (a set-based work list in the code; the order
     is irrelevant). *)
 Definition up_roots (t : topo) : list (option oslot) :=
@@ -184,7 +184,7 @@ Definition down_leaves (t : topo) : list islot :=
 
 Definition is_none {A : Type} (o : option A) : bool := match o with None => true | Some _ => false end.
 
-(** [_check_missing_components] (559-577) *)
+(** [_check_missing_components] (562-580) *)
 Definition check_missing (t : topo) : option errkind :=
   if existsb (fun i => is_none (i_own i)) (down_leaves t) then Some KMissIn
   else if existsb (fun r => match r with Some o => is_none (o_own o) | None => true end) (up_roots t)
@@ -192,7 +192,7 @@ Definition check_missing (t : topo) : option errkind :=
        else None.
 
 (* ------------------------------------------------------------------------- *)
-(** ** [_validate_composition] (324-337) *)
+(** ** [_validate_composition] (328-341) *)
 
 Inductive check_id : Type := CkInput | CkDead | CkBranch | CkMissing.
 
@@ -249,7 +249,7 @@ Definition validate_composition (t : topo) : list event * result :=
   let '(ev, res) := run_checks (all_checks t) in
   (ev, match res with None => RDone | Some _ => RRaised ConnectError end).
 
-(** [Composition.connect] (161-211) up to the first pass of [_connect_components] (339-375):
+(** [Composition.connect] (159-213) up to the first pass of [_connect_components] (343-379):
     status check, (argument checks and [_collect_adapters]: no events), validation, then every
     component is asked to connect, in order.  The rest of the connect phase is the subject of
     the C06 model. *)
@@ -263,7 +263,7 @@ Definition connect (already_connected : bool) (t : topo) : list event * result :
     end.
 
 (* ------------------------------------------------------------------------- *)
-(** ** [Composition.metadata]["links"] (430-524) *)
+(** ** [Composition.metadata]["links"] (434-528) *)
 
 Inductive lnode : Type :=
 | NOut (own : option nat) (pos : nat)
@@ -292,7 +292,7 @@ Fixpoint dedupe (seen : list nat) (l : list anode) : list anode :=
       else n :: dedupe (a_id (fst n) :: seen) r
   end.
 
-(** [_collect_adapters] (317-323): per component, the adapters above every input
+(** [_collect_adapters] (321-326): per component, the adapters above every input
     ([_collect_adapters_input], from the input upwards) and below every output. *)
 Definition collect_raw (t : topo) : list anode :=
   flat_map (fun c =>
